@@ -109,6 +109,33 @@ class Program:
         for d in getattr(fn, 'decorator_list', []):
             nm = ast.unparse(d.func if isinstance(d, ast.Call) else d)
             if nm.split('.')[-1] not in self.TRANSPARENT_DECORATORS and not nm.endswith('.setter'): out.append(nm)
+        out += self.rebound().get(qual.split('#')[0], [])
+        return out
+
+    def rebound(self):
+        """functions / methods whose NAME is bound to something else after the `def`: a module-level assignment to the same name, or an
+        attribute store `<anything>.<name> = ...` / setattr(..., '<name>', ...) anywhere in the package (monkey-patching).  Conservative, by bare name."""
+        if hasattr(self, '_rebound'): return self._rebound
+        names = {}
+        for mn, m in self.modules.items():
+            for local in m.funcs:
+                if mn + ':' + local in getattr(self, 'extracted', {}): continue
+                names.setdefault(local.split('.')[-1], []).append(f'{mn}:{local}')
+        out = {}
+        def hit(name, why):
+            for q in names.get(name, []): out.setdefault(q, []).append(why)
+        for mn, m in self.modules.items():
+            for n in m.tree.body:
+                tgts = n.targets if isinstance(n, ast.Assign) else ([n.target] if isinstance(n, (ast.AugAssign, ast.AnnAssign)) else [])
+                for t in tgts:
+                    if isinstance(t, ast.Name) and f'{mn}:{t.id}' in [q for qs in names.values() for q in qs]:
+                        out.setdefault(f'{mn}:{t.id}', []).append(f'module-level assignment to {t.id} at {mn}:{n.lineno}')
+            for n in ast.walk(m.tree):
+                if isinstance(n, ast.Attribute) and isinstance(n.ctx, ast.Store) and n.attr in names and not (isinstance(n.value, ast.Name) and n.value.id == 'self'):
+                    hit(n.attr, f'attribute store .{n.attr} = ... at {mn}:{n.lineno}')
+                elif isinstance(n, ast.Call) and ast.unparse(n.func) == 'setattr' and len(n.args) >= 2 and isinstance(n.args[1], ast.Constant) and n.args[1].value in names:
+                    hit(n.args[1].value, f'setattr(..., {n.args[1].value!r}, ...) at {mn}:{n.lineno}')
+        self._rebound = out
         return out
 
     def has_func(self, qual):
